@@ -230,6 +230,7 @@ class Model(object):
         objvals = self.objval[:self.npt()]
         if not np.all(np.isnan(objvals)):
             self.kopt = np.nanargmin(objvals)  # make sure kopt is always the best (non-NaN) value we have
+        self.factorisation_current = False  # interpolation matrix is centred at xopt, which may have moved
         return
 
     def add_new_point(self, x, rvec, eval_num):
